@@ -159,7 +159,7 @@ pub mod file_spec {
         pub closed spec fn v_ts_yes(&self) -> bool { self.timestamp_cfg is Yes }
         pub closed spec fn decided(&self, o: &FileSpec, use_timestamp: bool) -> bool {
             self.timestamp_cfg == (if o.timestamp_cfg is Default { if use_timestamp { TimestampCfg::Yes } else { TimestampCfg::No } } else { o.timestamp_cfg })
-            && self.basename == o.basename && self.o_discriminant == o.o_discriminant && self.o_suffix == o.o_suffix && self.directory == o.directory
+            && self.basename == o.basename && self.o_discriminant == o.o_discriminant && self.o_suffix == o.o_suffix && self.directory == o.directory && self.use_utc == o.use_utc
         }
         pub closed spec fn fixed_part(&self) -> Seq<char> { fixed_spec(self.basename@, ostring(self.o_discriminant), self.timestamp_cfg.start_spec()) }
         /// the path of the documented name inside the configured directory
